@@ -24,6 +24,11 @@ from . import core
 
 BACKENDS = ("threading", "loky", "multiprocessing")
 PROGRAM_WALL_LIMIT = 120.0     # a healthy program takes well under a second
+# blocked tasks of a failed call release themselves after GATE_WAIT seconds; the call after the failed one must be
+# over long before.  Threads cannot be killed: the thread pool's terminate() joins them, so on the threading backend
+# every such program costs GATE_WAIT seconds and the margins are smaller (a healthy next call takes milliseconds there).
+GATE_WAIT = {"threading": 5.0, "loky": 30.0, "multiprocessing": 30.0}
+NEXT_CALL_WALL_LIMIT = {"threading": 2.5, "loky": 12.0, "multiprocessing": 12.0}
 
 
 def programs_c01(tier):
@@ -44,6 +49,12 @@ def programs_c04(tier):
     for nj, bs, pre, ra, fail in itertools.product(
             njs, (1, 2, "auto"), ("all", "2*n_jobs", 1), ("list", "generator", "generator_unordered"), fails):
         out.append(dict(n_jobs=nj, batch_size=bs, pre_dispatch=pre, return_as=ra, n=n, dur="flat", fail=fail, reuse=True))
+    # inside a with block, the other tasks of the failing call still running (they do not complete before the
+    # next call is over): the next call must not be starved by them
+    for managed, bs, pre, ra, fail in itertools.product((True, False), (1,) if tier == "quick" else (1, 2),
+                                                        ("2*n_jobs",) if tier == "quick" else ("2*n_jobs", "all"), ("list", "generator"),
+                                                        (["task", 0], ["task", 1], ["iter", 2])):
+        out.append(dict(n_jobs=2, batch_size=bs, pre_dispatch=pre, return_as=ra, n=n, dur="block", fail=fail, reuse=True, managed=managed))
     return out
 
 
@@ -54,23 +65,29 @@ def _run_program(backend, cfg, d, run_id, rec_sink):
     from .realpar_tasks import work, IterBoom
     consumed = []
 
+    gate = os.path.join(d, "release-%d" % run_id)
+
     def inputs(run, n, fail, dur):
         for i in range(n):
             if fail and fail[0] == "iter" and fail[1] == i:
                 raise IterBoom(i)
             consumed.append(i)
             sleep = (n - i) * 4 if dur == "dec" else 0
-            yield joblib.delayed(work)(d, run, i, sleep, bool(fail and fail[0] == "task" and fail[1] == i))
+            failing = bool(fail and fail[0] == "task" and fail[1] == i)
+            yield joblib.delayed(work)(d, run, i, sleep, failing, gate if dur == "block" and not failing else None, GATE_WAIT[backend])
 
     p = joblib.Parallel(n_jobs=cfg["n_jobs"], backend=backend, batch_size=cfg["batch_size"],
                         pre_dispatch=cfg["pre_dispatch"], return_as=cfg["return_as"])
     calls = [(cfg["n"], cfg["fail"], cfg["dur"])] + ([(3, None, "flat")] if cfg["reuse"] else [])
     obs = {"cfg": cfg, "calls": []}
     rec_sink["current"] = obs
+    if cfg.get("managed"):
+        p.__enter__()
     for callno, (n_k, fail_k, dur_k) in enumerate(calls):
         run = run_id * 10 + callno
         rec = {"run": run, "n": n_k, "got": []}
         obs["calls"].append(rec)
+        t_call = time.time()
         try:
             out = p(inputs(run, n_k, fail_k, dur_k))
             if cfg["return_as"] == "list":
@@ -81,7 +98,15 @@ def _run_program(backend, cfg, d, run_id, rec_sink):
         except BaseException as e:  # noqa
             rec["exc"] = [type(e).__name__, getattr(e, "index", None) if not isinstance(e, IterBoom) else e.args[0]]
         rec["consumed"] = list(consumed)
+        rec["wall"] = round(time.time() - t_call, 3)
         del consumed[:]
+    # release the blocked tasks of the failed call (they belong to no call any more)
+    open(gate, "w").close()
+    if cfg.get("managed"):
+        try:
+            p.__exit__(None, None, None)
+        except BaseException as e:  # noqa
+            obs["exit_exc"] = [type(e).__name__, str(e)[:200]]
     # execution files
     counts = {}
     for f in os.listdir(d):
@@ -148,6 +173,9 @@ def judge(obs, backend):
             bad.append(("real|task-twice|%s" % where, "%s: tasks %r executed more than once (%r)" % (tag, twice, counts)))
         if foreign:
             bad.append(("real|task-foreign|%s" % where, "%s: executions of tasks %r that the input never produced" % (tag, foreign)))
+        if callno > 0 and cfg.get("dur") == "block" and rec.get("wall", 0) > NEXT_CALL_WALL_LIMIT[backend]:
+            bad.append(("real|next-call-starved|%s|%s" % (where, "with-block" if cfg.get("managed") else "plain"),
+                        "%r: the call after the failed one took %.1f s: it waited for the still running tasks of the failed call" % (cfg, rec["wall"])))
         if fail is None:
             if "exc" in rec:
                 bad.append(("real|exception:%s|%s|%s" % (rec["exc"][0], where, tag), "%s of %r raised %r" % (tag, cfg, rec["exc"])))
@@ -216,13 +244,20 @@ def run_real(ctx, programs, prop, nchunks=5):
     for b in BACKENDS:
         # the multiprocessing backend rejects return_as != 'list' at construction (supports_return_generator is False)
         progs = [p for p in programs if b != "multiprocessing" or p["return_as"] == "list"]
+        slow = [p for p in progs if p.get("dur") == "block"]
+        progs = [p for p in progs if p.get("dur") != "block"]
         size = max(1, (len(progs) + nchunks - 1) // nchunks)
         for i in range(0, len(progs), size):
             chunk = progs[i:i + size]
             items.append((b, chunk, rid))
             rid += len(chunk)
+        # programs that wait (blocked sibling tasks): two per session so that they overlap across sessions
+        for i in range(0, len(slow), 2):
+            items.append((b, slow[i:i + 2], rid))
+            rid += 2
     n = 0
     per_backend = {}
+    items.sort(key=lambda it: -sum(1 for p in it[1] if p.get("dur") == "block"))
     for res in core.pmap(_session_work, items, pin=False):
         n += res["n"]
         per_backend[res["backend"]] = per_backend.get(res["backend"], 0) + res["n"]
